@@ -198,7 +198,10 @@ def do_check(mod, prop, tier, seed, repo, workdir, jobs):
         for k, v in res["counters"].items():
             counters[k] = counters.get(k, 0) + v
         evaluations += res["evaluations"]
-        distinct.update(res["distinct"])
+        if len(distinct) < 6_000_000:          # bound the runner's memory; beyond it the count is conservative
+            distinct.update(res["distinct"])
+        else:
+            overflow += len(res["distinct"])
         overflow += res["distinct_overflow"]
         required.update(res["required"])
         for s in res["samples"]:
